@@ -66,4 +66,11 @@ RECIPES = [
      "    j = nan_argmax(curext.ext[:, 0], mm.ext[:, 0]).nonzero()[0]\n    if j.size > 0:\n        for i in j:\n            curext.maxcase[i] = maxcase[i]\n        curext.ext[j, 0] = mm.ext[j, 0]\n        _put_time(curext, mm, j, 0, 0)\n\n    j = nan_argmin(curext.ext[:, 1], mm.ext[:, 1]).nonzero()[0]\n    if j.size > 0:\n        for i in j:\n            curext.mincase[i] = mincase[i]\n        curext.ext[j, 1] = mm.ext[j, 1]\n        _put_time(curext, mm, j, 1, 1)\n",
      "    jx = nan_argmax(curext.ext[:, 0], mm.ext[:, 0]).nonzero()[0]\n    jn = nan_argmin(curext.ext[:, 1], mm.ext[:, 1]).nonzero()[0]\n    for i in jx:\n        curext.maxcase[i] = maxcase[i]\n    for i in jn:\n        curext.mincase[i] = mincase[i]\n    curext.ext[jx, 0] = mm.ext[jx, 0]\n    curext.ext[jn, 1] = mm.ext[jn, 1]\n    if jx.size > 0:\n        _put_time(curext, mm, jx, 0, 0)\n    if jn.size > 0:\n        _put_time(curext, mm, jn, 1, 1)\n",
      "both selectors first, then the replacements"),
+    ("C16", "neutral", [], U, "        ext=np.column_stack((mx, mn)), ext_x=np.column_stack((x[jx], x[jn]))", "        ext=np.vstack((mx, mn)).T, ext_x=np.stack((x[jx], x[jn]), axis=1)", "other ways to build the two-column tables"),
+    ("C16", "break", ["C16-R4"], E, "    solout = SimpleNamespace(**vars(sol))\n", "    solout = sol\n", "the caller's namespace is modified"),
+    ("C16", "break", ["C16-R6"], E, "    genforce = np.empty((n - nrb, sol.a.shape[1]), sol.a.dtype)", "    genforce = np.empty((n - nrb, sol.a.shape[0]), sol.a.dtype)", "genforce columns"),
+    ("C16", "break", ["C16-R6"], E, "    elif m.ndim == 1:\n", "    elif m.ndim == 2:\n", "vector / matrix arms of the mass term swapped"),
+    ("C16", "break", ["C16-R5"], E, "    if (lup := save[\"lup_elastic\"]) is not None:", "    if (lup := save[\"lup_elastic\"]) is None:", "solve only when there is no factorisation"),
+    ("C16", "break", ["C16-R1"], U, "            curext.mx[:, casenum] = mm.ext[:, 0]\n            curext.mn[:, casenum] = mm.ext[:, 0]\n", "            curext.mn[:, casenum] = mm.ext[:, 0]\n", "per-case max not recorded"),
+    ("C16", "break", ["C16-R2"], U, "    ind = np.arange(r)\n", "", "name read that is never bound"),
 ]
